@@ -233,7 +233,7 @@ class C14(Check):
     reference_models = ["ref/refext4.py check() rules R5.* (every checksum of the format, own CRC tables)", "independent JBD2 checksum verifier (this file)"]
 
     def budget(self, tier):
-        return {"runs": 1600, "wall_s": 80} if tier == "quick" else {"runs": 12000, "wall_s": 1500}
+        return {"runs": 1600, "wall_s": 80} if tier == "quick" else {"runs": 8000, "wall_s": 1500}
 
     def generate(self, rng, tier):
         cs = rng.weighted([("metadata_csum", 8), ("uninit_bg", 2)])
@@ -468,6 +468,11 @@ class C14(Check):
                 continue
             if lib_err in CSUM_ERRORS:
                 o.stats["probe.library_reports_csum_error"] += 1
+            if not lib_err and ((typ == "superblock" and off in (100, 101, 102, 103)) or (typ == "inode" and off in (128, 129))):
+                # limits of the format, not of the tools: a flip in s_feature_ro_compat can switch metadata_csum itself off,
+                # and an i_extra_isize below 4 leaves the inode with a 16-bit checksum (1 flip in 65536 goes unnoticed)
+                o.stats["outside.flip_disables_or_shortens_checksum"] += 1
+                continue
             if not lib_err:
                 o.violate("detect|library_accepts|%s" % typ, "%s flipped: the library reads the object without any error (%s): %s" %
                           (desc, h.out.decode("latin1").strip().replace("\n", "; "), where), skey="detect|library")
